@@ -254,12 +254,15 @@ def new_case(name, be, pre, settings, meta):
 def op_setup(case, pr, names):
     case["lines"] += pr.lines_for(names) + ["setup " + " ".join(names)]
     case["ops"].append(("setup", tuple(names)))
+    # number of finite lower / upper bounds the solver holds
+    case["fin"] = (pr.count_fin(pr.lb, -1) if "lb" in names else 0, pr.count_fin(pr.ub, 1) if "ub" in names else 0)
 
 
 def op_update(case, pr, names, reuse, mode="feasible"):
-    before = (pr.count_fin(pr.lb, -1), pr.count_fin(pr.ub, 1))
+    before = case.get("fin", (0, 0))
     pr.perturb(names, mode)
-    after = (pr.count_fin(pr.lb, -1), pr.count_fin(pr.ub, 1))
+    after = (pr.count_fin(pr.lb, -1) if "lb" in names else before[0], pr.count_fin(pr.ub, 1) if "ub" in names else before[1])
+    case["fin"] = after
     case["lines"] += pr.lines_for(names) + [f"update {int(reuse)} " + " ".join(names)]
     case["ops"].append(("update", tuple(names), int(reuse), before, after))
 
